@@ -533,14 +533,20 @@ static void systemDrv(const J &sc, Emitter &out)
             if (exp) {
                 double want = q((*exp)[av["comp"].str()]);
                 f.set("okC", J(closeTo(pick(rc), want, tol))).set("okPy", J(closeTo(pick(rp), want, tol)));
+                auto pick2 = [&](const GenRun &r) { return isState ? (idx < r.states2.size() ? r.states2[idx] : NAN) : (idx < r.variables2.size() ? r.variables2[idx] : NAN); };
+                bool stepped = !rc.variables2.empty() || !rc.states2.empty(); // models without states are not run a second time
+                double want2 = q((*exp)[av["comp"].str() + "2"]);
+                f.set("ok2C", J(!stepped || closeTo(pick2(rc), want2, tol))).set("ok2Py", J(!stepped || closeTo(pick2(rp), want2, tol)));
                 if (isState) {
                     double wr = q((*exp)["rate"]);
                     f.set("rateOkC", J(closeTo(pickRate(rc), wr, tol))).set("rateOkPy", J(closeTo(pickRate(rp), wr, tol)));
+                    double wr2 = q((*exp)["rate2"]);
+                    f.set("rate2OkC", J(idx < rc.rates2.size() && closeTo(rc.rates2[idx], wr2, tol))).set("rate2OkPy", J(idx < rp.rates2.size() && closeTo(rp.rates2[idx], wr2, tol)));
                 }
             } else { // unknowns of the implicit equations: u = 4 (one / guess), u = 3 and w = 2 (pair)
                 std::string nla = sys["nla"].str();
                 double want = av["name"].str() == "w" ? 2.0 : (nla == "pair" ? 3.0 : 4.0); // pair: u = 3, w = 2; one / guess / mixed: u = 4 (mixed: w = 2)
-                f.set("okC", J(closeTo(pick(rc), want, 1e-6))).set("okPy", J(closeTo(pick(rp), want, 1e-6)));
+                f.set("okC", J(closeTo(pick(rc), want, 1e-6))).set("okPy", J(closeTo(pick(rp), want, 1e-6))).set("ok2C", J(true)).set("ok2Py", J(true));
             }
             char buf[64];
             snprintf(buf, sizeof buf, "%.12g", pick(rc));
